@@ -39,12 +39,16 @@ class Names:
             self.pool += ALPHABETS[f]
         self.used = set()
         self.n = 0
+        self.long_names = False
 
     def fresh(self, parent):
         for _ in range(20):
             nm = self.rng.choice(self.pool)
             if self.rng.random() < 0.3:
                 nm = nm + self.rng.choice([b".txt", b"2", b".bak", b"_"])
+            if self.long_names and self.rng.random() < 0.06:
+                # a name near NAME_MAX (255 bytes): no room for a suffix of a temporary sibling
+                nm = (nm * 300)[:self.rng.choice([226, 231, 240, 255])]
             key = parent + b"/" + nm
             if key not in self.used and nm not in (b".", b"..") and b"/" not in nm and b"\0" not in nm:
                 self.used.add(key)
@@ -191,6 +195,7 @@ def gen_world(rng, cfg, *, nroots=1, hostile=True, links=True, max_files=24, fam
     small = cfg["small"]
     fams = pick_alphabets(rng, hostile)
     names = Names(rng, fams)
+    names.long_names = hostile
     w = World()
     roots = root_names(rng, nroots)
     if hostile_roots:
